@@ -8,7 +8,7 @@ From RPFT Require Import Base.Sexp Base.PyStr Base.PyStrFacts Base.Result Gen.Ta
 Import ListNotations.
 
 (* ---------------------------------------------------------------- the fragment, as a proposition *)
-Definition edge_ok (e : redge) : Prop := c_cname (e_cond e) = [].
+Definition edge_ok (e : redge) : Prop := cond_ok (e_cond e).
 
 Definition row_ok (cr : crow) : Prop :=
   Forall edge_ok (r_edges (cr_row cr)) /\
@@ -23,6 +23,9 @@ Definition row_ok (cr : crow) : Prop :=
        end
   | _ => True
   end.
+
+(* the code of this run reads the padding entries of the row as the reference does *)
+Definition reads_same (cr : crow) : Prop := read_edges (r_edges (cr_row cr)) = drop_padding (r_edges (cr_row cr)).
 
 Section Step.
 Variable fresh : nat -> id.
@@ -250,12 +253,12 @@ Qed.
 (* a node row (not merged into another) *)
 Lemma node_row_sim phi sr sc cr cls payloads dec0 sr' sc' :
   Sim phi sr sc -> StOK fresh GP sc -> row_ok cr -> r_type (cr_row cr) = TNode cls payloads dec0 ->
-  step_row nab sr (cr_row cr) = Some sr' -> cstep fresh sc cr = Ok sc' ->
+  step_row nab sr (cr_row cr) = Some sr' -> cstep_read fresh sc cr = Ok sc' ->
   exists phi', Sim phi' sr' sc' /\ cs_heads sc' = cs_heads sc /\ phi_le phi phi'
                /\ nth_error phi' (length (s_nodes sr)) = Some (length (cs_nodes sc), None).
 Proof.
   intros Hsim Hst [Hedges Hrow] Ht. rewrite Ht in Hrow. destruct Hrow as (Hname & Huuid & -> & -> & Hacts).
-  unfold step_row, cstep. rewrite Ht, Hname, Huuid. cbn [or_default].
+  unfold step_row, cstep_read. rewrite Ht, Hname, Huuid. cbn [or_default].
   set (kind := cr_kind cr) in *.
   set (row_action := if is_basic_kind kind then match payloads with p :: _ => Some p | [] => None end else None).
   destruct (match row_action with Some p => ([(fresh (cs_next sc), p)], S (cs_next sc)) | None => ([], cs_next sc) end) as [acts n1] eqn:Eacts.
@@ -292,9 +295,9 @@ Proof.
   set (phi1 := phi ++ [(j, None)]) in *.
   pose proof (Sim_push phi sr sc n0 nd n2 Hsim Hns) as Hsim1. fold j phi1 in Hsim1.
   assert (Hst1 : StOK fresh GP (push_node sc nd n2)) by (apply (push_StOK fresh GP fresh_inj); [exact Hst|lia|exact N2|exact Fn]).
-  set (es := match r_edges (cr_row cr) with [] => [] | e0 :: rest => e0 :: filter (fun e => negb (edge_trivial e)) rest end).
+  set (es := drop_padding (r_edges (cr_row cr))).
   assert (Hes : Forall edge_ok es).
-  { unfold es. destruct (r_edges (cr_row cr)) as [|e0 rest]; [constructor|]. inversion Hedges as [|? ? H0 Hr]; subst.
+  { unfold es, drop_padding. destruct (r_edges (cr_row cr)) as [|e0 rest]; [constructor|]. inversion Hedges as [|? ? H0 Hr]; subst.
     constructor; [exact H0|]. rewrite Forall_forall in *. intros e He. apply filter_In in He as [He _]. auto. }
   cbv zeta. change (add_node sr (mkRNode payloads (kind_dec0 kind) DNone)) with (RowSem.add_node sr n0).
   destruct (RowSem.add_node sr n0) as [sr1 k'] eqn:Eadd. unfold RowSem.add_node in Eadd. injection Eadd as <- <-. fold k.
@@ -385,7 +388,7 @@ Qed.
 
 (* the parents of a no_op / of a block head *)
 Lemma noop_parents_sim phi sr sc edges : forall acc ps ps',
-  Sim phi sr sc -> Forall edge_ok edges -> Forall (fun p : nat * econd => c_cname (snd p) = []) acc ->
+  Sim phi sr sc -> Forall edge_ok edges -> Forall (fun p : nat * econd => cond_ok (snd p)) acc ->
   fold_left (fun a e => match a with
                         | None => None
                         | Some q => match source_group sr e with
@@ -396,7 +399,7 @@ Lemma noop_parents_sim phi sr sc edges : forall acc ps ps',
                     | Err x => Err x
                     | Ok None => Ok q
                     | Ok (Some g) => Ok (q ++ [(g, e_cond e)]) end) edges acc = Ok ps' ->
-  ps = ps' /\ Forall (fun p : nat * econd => c_cname (snd p) = []) ps.
+  ps = ps' /\ Forall (fun p : nat * econd => cond_ok (snd p)) ps.
 Proof.
   induction edges as [|e r IH]; intros acc ps ps' Hsim Hes Hacc; cbn.
   - intros H1 H2. injection H1 as <-. injection H2 as <-. auto.
